@@ -153,7 +153,7 @@ def run_jobs(jobs, progress=None):
         if job.split:
             props = cbmc.list_properties(job, gb, wd)
             if props:
-                groups = cbmc.split_groups(props, job.split)
+                groups = cbmc.split_groups(props, job.split, job.rest_chunk)
         prepared[i] = (gb, wd, t0)
         return i, groups
 
